@@ -1,7 +1,10 @@
-"""C07.R1 / C08.R6: explicit panic-site audit.
+"""C07.R1 / C08.R6: panic-site audit.
 
 Every explicit panic site (panic!/unreachable!/unimplemented!/todo!/assert!, Option/Result
-unwrap/expect, Index::index on Vec/slice/HashMap/VecDeque) in a body reachable from the entry
+unwrap/expect, Index::index on Vec/slice/HashMap/VecDeque) and every implicit one (the bounds check
+of a slice / array index expression, the zero check of an integer division or remainder - rustc's
+assert terminators; J1 for these is a proof by rbv.bounds that the asserted comparison follows from
+the comparisons dominating the site) in a body reachable from the entry
 points of the scope is keyed by (enclosing function, kind, callee or message, ordinal) and must be in
 exactly one class: J1 discharged by a rule re-proved on every run, J2 audited with a written
 invariant, K a known finding, or U the unaudited baseline frozen in tables/panic_baseline.json
@@ -11,7 +14,7 @@ import json
 import os
 import re
 
-from .. import mir
+from .. import bounds, mir
 from ..core import CheckError, VERIF
 from . import common
 
@@ -35,7 +38,7 @@ def scope_roots(prog, scope):
         roots += [f for f in prog.fns.values() if f.name == "generate_instructions" and f.crate == "rusty_basic"]
         if len(roots) < 2:
             raise CheckError("back-end entry points not found")
-        crates = ("rusty_basic",)
+        crates = ("rusty_basic", "rusty_variant", "rusty_common", "rusty_bit_vec")
     return roots, crates
 
 
@@ -61,6 +64,10 @@ def sites_of(prog, fn):
             cont = re.sub(r"<.*", "", st).split("::")[-1]
             if cont in ("Vec", "HashMap", "VecDeque", "BTreeMap") or st.startswith("["):
                 out.append(("index", cont or "slice", t.get("ln"), b))
+    for kind, b, t in bounds.implicit_sites(fn):
+        if any("debug_assert" in m for m in t.get("mx", [])):
+            continue
+        out.append((kind, "", t.get("ln"), b))
     return out
 
 
@@ -96,6 +103,12 @@ def discharged_locally(prog, fn, b, kind):
     on the same value, or the index is guarded by a comparison with len()."""
     body = fn.body
     t = body.term(b)
+    if kind in ("bounds", "divzero", "remzero"):
+        ok, why = bounds.prove_site(prog, fn, b, t)
+        return ("proved: " + why) if ok else None
+    if kind == "index":
+        ok, why = bounds.prove_index_call(prog, fn, b, t)
+        return ("proved: " + why) if ok else None
     pv = mir.Prov(body)
     if kind in UNWRAPS and t["args"]:
         recv = mir.strip_all(pv.of_operand(t["args"][0]))
@@ -139,6 +152,22 @@ def r_audit(ctx, rule, scope):
             ctx.ok(rule, okey, loc, "U: unaudited baseline (accepted risk)")
         else:
             counts["new"] += 1
+            if kind == "index":
+                _ok, why = bounds.prove_index_call(prog, fn, b, fn.body.term(b))
+                ctx.violation(rule, okey, loc,
+                              "this element index can be out of range: i < len(v) %s, and the site is not in the "
+                              "audited table nor in the frozen baseline - an index past the end aborts the %s "
+                              "instead of returning an error" % (why, scope), {"function": fn.path})
+                continue
+            if kind in ("bounds", "divzero", "remzero"):
+                _ok, why = bounds.prove_site(prog, fn, b, fn.body.term(b))
+                ctx.violation(rule, okey, loc,
+                              "the %s of this expression can fail: the asserted condition %s, and the site is not "
+                              "in the audited table nor in the frozen baseline - an index past the end / a zero "
+                              "divisor here aborts the %s instead of returning an error"
+                              % ({"bounds": "bounds check", "divzero": "division zero check",
+                                  "remzero": "remainder zero check"}[kind], why, scope), {"function": fn.path})
+                continue
             ctx.violation(rule, okey, loc,
                           "explicit panic site (%s) reachable from the %s entry points is not in the audited "
                           "table nor in the frozen baseline: new or moved code that can abort instead of "
